@@ -444,7 +444,7 @@ def r8_single_body(report, repo):
 
 def run(report, repo):
   from sa.rules import c01, c02, c03  # pylint: disable=g-import-not-at-top
-  c02.r3_sequences(report, repo, rule='C04-R1', only_abortable=True)
+  c02.r3_sequences(report, repo, rule='C04-R1')
   r2_thread_publication(report, repo)
   r3_abort_ladder(report, repo)
   c01.r4_teardown_ladder(report, repo, rule='C04-R4')
